@@ -15,7 +15,10 @@ DRIVER_DEPS = ["EzdxfVerif.Model.Doc", "EzdxfVerif.Model.Audit", "Drivers.Proto"
 RULE = (
     "correspondence: generated API histories on a real Drawing followed by in-memory structural damage (owner handle "
     "overwritten with a dangling / wrong / missing value, entity listed in a second entity space, block reference to an "
-    "undefined block, unlinked entity) and two doc.audit() runs: number of applied fixes and all observables after each "
+    "undefined block, unlinked entity; session 3: groups with dead / unlinked / block-owned members or members on several "
+    "layouts, empty groups, a *Paper_Space... block record without layout that holds entities and is referenced, the active "
+    "block *Paper_Space renamed) and two "
+    "doc.audit() runs: number of applied fixes and all observables after each "
     "run vs the Lean audit model. oracle (real code): (1) no false positives - audit of documents built by rich API "
     "histories (all entities linked, no stale group members) reports no error, no fix and does not change the written "
     "bytes; (2) convergence - every combination of k<=3 faults from a tag-level catalogue (dangling owner, dangling "
@@ -25,11 +28,13 @@ RULE = (
     "validation of the saved file. non-trivial = at least one fault / mutation; distinct by hash."
 )
 TRUSTED_BASE = [
-    "only the structural part of Auditor.run is modelled (BlocksSection.audit owner check, check_owner_exist, Insert.audit undefined block, trashcan); table/object/group/layout audits and the ~60 entity-specific audit() overrides are exercised by the oracle only",
+    "modelled part of Auditor.run (Model/Doc.lean `audit`): BlocksSection.audit owner check, Layouts.audit orphaned paperspace block records and restoration of the active paperspace layout (not: creation of a new layout when none is left), check_owner_exist incl. unlinked entities, Insert.audit undefined block, trashcan, GroupCollection.audit (invalid members, members on several layouts, empty groups) in the order of the (fixed) pipeline; root dictionary / table / object audits, LAYOUT objects, the value fixers and the ~60 entity-specific audit() overrides are exercised by the oracle only",
     "harness/dxfparse.py validator for the saved file",
 ]
 ASSUMPTIONS = ["faults are applied at the tag level to files written by ezdxf itself"]
-OPEN = ["audit_sound is stated for the decidable predicate AuditClean; that every API-built document without unlinked entities satisfies it is corresponded/oracled, not proved"]
+OPEN = ["audit_sound is stated for the decidable predicate AuditClean; that every API-built document without unlinked entities, stale group members, empty groups and user blocks named *Paper_Space... satisfies it is corresponded/oracled, not proved",
+        "missing SEQEND repair, duplicate / invalid handles, dictionary entries to dead objects, undefined linetype/style/layer names, invalid attribute values: oracle only (fault catalogue)",
+        "F24 (partially fixed): audit still raises for two duplicate-handle constellations on structural objects"]
 
 VERS = ["R2000", "R2004", "R2007", "R2010", "R2013", "R2018"]
 
@@ -49,6 +54,30 @@ def correspond(ctx):
                 continue
             req, out = r.apply(op)
             lines.append((req, out + ";" + r.observe()))
+        orphan = hr.random() < 0.3
+        if orphan:
+            # a paperspace block record without a layout (`Layouts.audit` deletes it with its content; block references
+            # to it and entities owned by it must be repaired by the same run)
+            name = hr.choice(["*Paper_Space7", "*PAPER_SPACE8"])
+            for op in (("newblock", name),):
+                req, out = r.apply(op)
+                lines.append((req, out + ";" + r.observe()))
+            kb = [k for k, lay in r.containers().items() if lay is not None and lay.name == name]
+            for op in ([("add", kb[0]), ("addl", kb[0], None, 2)] if kb else []) + [("addl", sorted(r.containers())[0], name, hr.choice([0, 1]))]:
+                req, out = r.apply(op)
+                lines.append((req, out + ";" + r.observe()))
+            ctx.hist("X1 audit model", "orphan-paperspace-block")
+        noactive = hr.random() < 0.2
+        if noactive:
+            # no active paperspace layout: the block *Paper_Space is renamed (low level tool) - with a paperspace layout left
+            # `Layouts.audit` restores the active layout by renaming the block of the first paperspace layout; when the renamed
+            # block has no layout at all it is an orphan and deleted first
+            act = r.doc.block_records.get("*Paper_Space")
+            owned = any(l.block_record_handle == act.dxf.handle for l in r.doc.layouts)
+            if owned or len([l for l in r.doc.layouts if l.name != "Model"]) >= 1:
+                req, out = r.apply(("renblock", "*Paper_Space", hr.choice(["*Paper_Space5", "*PAPER_SPACE6"])))
+                lines.append((req, out + ";" + r.observe()))
+                ctx.hist("X1 audit model", "no-active-layout")
         ks = sorted(r.containers().keys())
         live = [h for h in r.order if r.ents[h].is_alive]
         nd = hr.choice([0, 1, 2, 3, 4])
@@ -68,7 +97,7 @@ def correspond(ctx):
             req, out = r.apply(("auditfix",))
             lines.append((req, out + ";" + r.observe()))
         for req, resp in lines:
-            cases.append((req, resp, nd > 0))
+            cases.append((req, resp, nd > 0 or orphan or noactive))
     ctx.correspond("X1 audit model", "C05", cases, build=DRIVER_DEPS)
 
 
@@ -100,7 +129,7 @@ def no_false_positive(ctx, seed, version):
     rep = {"op": "nfp", "seed": seed, "version": version}
     for i in range(hr.choice([8, 16, 24])):
         op = choose(r)
-        if op[0] in ("unlink", "reactor", "audit", "destroy", "reload"):
+        if op[0] in ("unlink", "reactor", "audit", "auditstep", "destroy", "reload"):
             continue  # unlinked entities / hand-made reactors are outside "valid"; destroy() alone leaves stale members
         if version == "R12" and op[0] in ("newlayout", "dellayout", "renlayout", "activate"):
             continue
@@ -147,6 +176,105 @@ def no_false_positive(ctx, seed, version):
         ctx.fail(f"audit-changed-output/{kind}/{version}", f"{version}: audit without findings changed the written file ({kind})", rep)
 
 
+def factory_calls(doc, lay):
+    """every creation method of the graphics factory with minimal legal arguments and boundary values (few points, zero
+    sizes, optional parts missing): (label, thunk).  Not included because the audit removes them by design (entities
+    without geometry): MESH without vertices, MLINE with a single vertex"""
+    P2 = [(0, 0), (2, 1)]
+    P3 = [(0, 0), (2, 1), (4, 0)]
+    P4 = [(0, 0), (2, 1), (4, 0), (6, 1)]
+    P6 = P4 + [(8, 0), (10, 1)]
+    calls = [
+        ("point", lambda: lay.add_point((0, 0))), ("line", lambda: lay.add_line((0, 0), (1, 0))),
+        ("line0", lambda: lay.add_line((0, 0), (0, 0))),
+        ("circle", lambda: lay.add_circle((0, 0), 1)), ("arc", lambda: lay.add_arc((0, 0), 1, 0, 360)),
+        ("ellipse", lambda: lay.add_ellipse((0, 0), (1, 0), 1.0)), ("ellipse-thin", lambda: lay.add_ellipse((0, 0), (1, 0), 1e-6)),
+        ("solid", lambda: lay.add_solid([(0, 0), (1, 0), (0, 1)])), ("trace", lambda: lay.add_trace([(0, 0), (1, 0), (0, 1), (1, 1)])),
+        ("3dface", lambda: lay.add_3dface([(0, 0, 0), (1, 0, 0), (0, 1, 0)])),
+        ("text", lambda: lay.add_text("")), ("text2", lambda: lay.add_text("x", height=0.1)),
+        ("mtext", lambda: lay.add_mtext("")), ("mtext-cols", lambda: lay.add_mtext_static_columns(["a", "b"], 3, 1, 5)),
+        ("attdef", lambda: lay.add_attdef("TAG")), ("shape", lambda: lay.add_shape("S")),
+        ("polyline2d-1", lambda: lay.add_polyline2d([(0, 0)])), ("polyline2d", lambda: lay.add_polyline2d(P3, close=True)),
+        ("polyline3d", lambda: lay.add_polyline3d([(0, 0, 0), (1, 1, 1)])),
+        ("polymesh", lambda: lay.add_polymesh((2, 2))), ("polyface", lambda: lay.add_polyface().append_face([(0, 0, 0), (1, 0, 0), (1, 1, 0)])),
+        ("lwpolyline-1", lambda: lay.add_lwpolyline([(0, 0)])), ("lwpolyline", lambda: lay.add_lwpolyline(P3, close=True)),
+        ("spline-fit2", lambda: lay.add_spline(P2)), ("spline-fit3", lambda: lay.add_spline(P3)),
+        ("spline-fit4", lambda: lay.add_spline(P4)), ("spline-fit6", lambda: lay.add_spline(P6)),
+        ("spline-deg2", lambda: lay.add_spline(P3, degree=2)),
+        ("spline-tangents", lambda: lay.add_spline(P3, dxfattribs={"start_tangent": (1, 0, 0), "end_tangent": (1, 0, 0)})),
+        ("spline-ctrl", lambda: lay.add_open_spline(P4)), ("spline-closed", lambda: lay.add_closed_spline(P4)),
+        ("spline-rational", lambda: lay.add_rational_spline(P4, [1, 2, 2, 1])),
+        ("spline-cpfit", lambda: lay.add_spline_control_frame(P3)), ("spline-cad", lambda: lay.add_cad_spline_control_frame(P3)),
+        ("hatch-empty", lambda: lay.add_hatch()),
+        ("hatch-poly", lambda: lay.add_hatch().paths.add_polyline_path(P3, is_closed=True)),
+        ("hatch-edge", lambda: lay.add_hatch().paths.add_edge_path().add_line((0, 0), (1, 0))),
+        ("mpolygon", lambda: lay.add_mpolygon().paths.add_polyline_path(P3, is_closed=True)),
+        ("image", lambda: lay.add_image(doc.add_image_def("x.png", (10, 10)), (0, 0), (1, 1))),
+        ("wipeout", lambda: lay.add_wipeout([(0, 0), (1, 1)])), ("underlay", lambda: lay.add_underlay(doc.add_underlay_def("x.pdf", "pdf"), (0, 0))),
+        ("xline", lambda: lay.add_xline((0, 0), (1, 0))), ("ray", lambda: lay.add_ray((0, 0), (1, 0))),
+        ("leader", lambda: lay.add_leader(P2)), ("leader3", lambda: lay.add_leader(P3)),
+        ("mline", lambda: lay.add_mline(P3, close=True)),
+        ("helix", lambda: lay.add_helix(1, 1, 1)),
+        ("blockref", lambda: lay.add_blockref("FBLK", (0, 0))), ("blockref-attrib", lambda: lay.add_blockref("FBLK", (0, 0)).add_attrib("T", "v")),
+        ("auto-blockref", lambda: lay.add_auto_blockref("FBLK", (0, 0), {"T": "v"})),
+        ("lindim", lambda: lay.add_linear_dim(base=(0, 2), p1=(0, 0), p2=(3, 0)).render()),
+        ("aligned-dim", lambda: lay.add_aligned_dim(p1=(0, 0), p2=(3, 1), distance=1).render()),
+        ("radius-dim", lambda: lay.add_radius_dim(center=(0, 0), radius=2, angle=30).render()),
+        ("diameter-dim", lambda: lay.add_diameter_dim(center=(0, 0), radius=2, angle=30).render()),
+        ("angular-dim", lambda: lay.add_angular_dim_3p(base=(0, 3), center=(0, 0), p1=(3, 0), p2=(0, 3)).render()),
+        ("arc-dim", lambda: lay.add_arc_dim_3p(base=(0, 3), center=(0, 0), p1=(3, 0), p2=(0, 3)).render()),
+        ("ordinate-dim", lambda: lay.add_ordinate_x_dim(feature_location=(1, 1), offset=(0, 2)).render()),
+        ("mleader", lambda: lay.add_multileader_mtext("Standard").build(insert=(0, 0))),
+        ("3dsolid", lambda: lay.add_3dsolid()), ("region", lambda: lay.add_region()), ("body", lambda: lay.add_body()),
+        ("surface", lambda: lay.add_surface()), ("extruded", lambda: lay.add_extruded_surface()),
+    ]
+    return calls
+
+
+def factory_sweep(ctx):
+    """O3: no false positives for every creation method of the graphics factory (minimal legal arguments, boundary
+    values) in the modelspace, a paperspace layout and a block definition, all versions"""
+    import ezdxf
+
+    for version in ["R12"] + VERS:
+        for where in ("msp", "psp", "blk"):
+            if version == "R12" and where == "psp":
+                continue
+            doc = ezdxf.new(version)
+            blk = doc.blocks.new("FBLK")
+            blk.add_attdef("T", (0, 0))
+            blk.add_line((0, 0), (1, 1))
+            target = doc.blocks.new("TARGET")
+            lay = {"msp": doc.modelspace(), "psp": doc.layout("Layout1") if version != "R12" else None, "blk": target}[where]
+            made = []
+            for label, f in factory_calls(doc, lay):
+                try:
+                    f()
+                    made.append(label)
+                except Exception:  # noqa  (not every method exists for every version / layout kind: rejected is fine)
+                    ctx.hist("O3 factory sweep", "rejected")
+            rep = {"op": "factory", "version": version, "where": where}
+            ctx.count("O3 factory sweep", (version, where), True)
+            ctx.hist("O3 factory sweep", f"created={len(made)}")
+            n0 = {t: 0 for t in ()}
+            before_types = sorted(e.dxftype() for e in lay)
+            try:
+                before = written(doc)
+            except Exception as e:  # noqa
+                ctx.fail(f"factory-write-raised/{version}/{type(e).__name__}", f"{version} {where}: writing the factory document raised {type(e).__name__}: {e}", rep)
+                continue
+            a = doc.audit()
+            if a.errors or a.fixes:
+                msgs = [f"{x.code.name}" for x in (a.errors + a.fixes)][:4]
+                ctx.fail(f"false-positive/{msgs[0]}", f"{version} {where}: audit of a document built by the graphics factory reports {msgs}: "
+                         f"{(a.errors + a.fixes)[0].message[:120]}", rep)
+                continue
+            if sorted(e.dxftype() for e in lay) != before_types:
+                ctx.fail(f"false-positive/entity-removed/{version}", f"{version} {where}: audit removed entities of a factory-built document", rep)
+            if written(doc) != before:
+                ctx.fail(f"audit-changed-output/factory/{version}", f"{version} {where}: audit without findings changed the written file", rep)
+
+
 # ---- tag level faults
 def base_files(ctx):
     """valid files (tags) of all versions with polyline, insert+attribs, group, xdict, dimension"""
@@ -178,7 +306,18 @@ def base_files(ctx):
             es = doc.objects.get_entity_space().entities
             es.remove(child)
             es.insert(es.index(parent), child)
-            doc.layouts.new("Second")
+            second = doc.layouts.new("Second")
+            second.add_line((0, 0), (1, 1))
+            second.add_blockref("BLK", (1, 1))
+            msp.add_mtext("m")
+            msp.add_spline([(0, 0), (1, 1), (2, 0)])
+            msp.add_hatch().paths.add_polyline_path([(0, 0), (1, 0), (1, 1)], is_closed=True)
+            msp.add_ellipse((0, 0), (1, 0), 0.5)
+            dim = msp.add_linear_dim(base=(0, 2), p1=(0, 0), p2=(3, 0))
+            dim.render()
+        msp.add_circle((0, 0), 1)
+        msp.add_polyline3d([(0, 0, 0), (1, 1, 1)])
+        msp.add_polyface().append_face([(0, 0, 0), (1, 0, 0), (1, 1, 0)])
         s = io.StringIO()
         doc.write(s)
         out.append((v, dxfparse.parse_ascii(s.getvalue())))
@@ -217,6 +356,24 @@ def fault_sites(tags):
                     sites.append(("missing-seqend", i))
             if section == "OBJECTS" and (c, v) == (0, "LAYOUT"):
                 sites.append(("orphan-layout", i))
+    # the entries of the ACAD_LAYOUT dictionary (the DICTIONARY that has an entry "Model"): losing the entry of a
+    # paperspace layout orphans its LAYOUT object AND its *Paper_Space block record with all content
+    i = 0
+    while i < len(tags):
+        if tags[i] == (0, "DICTIONARY"):
+            j = i + 1
+            names = []
+            while j < len(tags) and tags[j][0] != 0:
+                if tags[j][0] == 3 and j + 1 < len(tags) and tags[j + 1][0] in (350, 360):
+                    names.append((tags[j][1], j))
+                j += 1
+            if any(n == "Model" for n, _ in names):
+                for n, k in names:
+                    if n != "Model":
+                        sites.append(("lost-layout-entry", k))
+            i = j
+        else:
+            i += 1
     return sites
 
 
@@ -245,6 +402,9 @@ def apply_faults(tags, faults, used_handles):
             while j < len(tags) and tags[j][0] != 0:
                 drop.add(j)
                 j += 1
+        elif kind == "lost-layout-entry":
+            drop.add(i)
+            drop.add(i + 1)
         elif kind == "orphan-layout":
             # make the LAYOUT point to a block record that does not exist
             j = i + 1
@@ -341,6 +501,7 @@ def oracle(ctx):
     rng = ctx.rng("oracle")
     for i in range(ctx.n(100, 1500)):
         no_false_positive(ctx, rng.randrange(1 << 30), (["R12"] + VERS)[i % 7])
+    factory_sweep(ctx)
     files = base_files(ctx)
     for version, tags in files:
         sites = fault_sites(tags)
@@ -356,6 +517,23 @@ def oracle(ctx):
             if tags[j][0] in (350, 360):
                 singles.append(("dangling-pointer", j))
             j += 1
+        # every entity TYPE x the owner faults: the owner tag (first 330) of every record of the ENTITIES section
+        # (R12 files have no owner tags)
+        in_entities = False
+        k = 0
+        while k < len(tags):
+            if tags[k] == (2, "ENTITIES") and tags[k - 1] == (0, "SECTION"):
+                in_entities = True
+            elif tags[k] == (0, "ENDSEC"):
+                in_entities = False
+            elif in_entities and tags[k][0] == 0:
+                m = k + 1
+                while m < len(tags) and tags[m][0] != 0:
+                    if tags[m][0] == 330 and not any(t[0] == 102 and t[1].startswith("{") for t in tags[k + 1:m] if False):
+                        singles.append(("dangling-owner", m))
+                        break
+                    m += 1
+            k += 1
         for f in dict.fromkeys(singles):
             converge(ctx, version, tags, [f], VCODE[version])
         for _ in range(ctx.n(12, 300)):
@@ -376,5 +554,7 @@ def replay(ctx, rep):
             converge(ctx, r["version"], files[r["version"]], [tuple(x) for x in r["faults"]], VCODE[r["version"]])
         elif r.get("op") == "nfp":
             no_false_positive(ctx, r["seed"], r["version"])
+        elif r.get("op") == "factory":
+            factory_sweep(ctx)
     bad = ctx.failures[n0:]
     return (not bad, "; ".join(x.key for x in bad) or "recorded inputs pass now")
